@@ -71,6 +71,10 @@ Judge(t, e) ==
       m == Mismatch(pair[2], e.r, TRUE)
   IN IF e.op.name = "next_fails" /\ ~WouldRender(t)
        THEN "next:rendered: the injected render failure fired although no render is due (cached frame / exhausted / closed)"
+     \* C09, first clause: the cached iterator fails (raises / stops) where the specification
+     \* and its uncached twin both yield a frame
+     ELSE IF e.paired /\ pair[2].res = "frame" /\ e.r2.res = "frame" /\ e.r.res # "frame"
+       THEN e.op.name \o ":cached-fails-where-uncached-yields: code " \o e.r.res
      ELSE IF m # "" THEN e.op.name \o ":" \o m
      ELSE IF e.paired /\ Mismatch(pair[2], e.r2, FALSE) # ""
        THEN e.op.name \o ":uncached-twin:" \o Mismatch(pair[2], e.r2, FALSE)
